@@ -217,8 +217,6 @@ def drive(path, ops, nh=3, h1=None, h2=b"", b0=b"", init_bytes=None):
                     viol.append(("C02:failed-put:view-changed", f"failing put({k[:8]!r}) -> {r} changed a handle's key listing"))
                 expect = ("(RErr EUnsupported)" if (h.closed or h.mode == "r") else
                           "(RErr EKey)" if k in view[i] else "(RErr EStruct)" if len(k) > 255 else None)
-                if expect is not None and r != expect:
-                    viol.append(("C02:put:wrong-error", f"put({k[:8]!r}) gave {r}, expected {expect}"))
                 if expect is None:
                     viol.append(("C02:put:spurious-failure", f"put({k[:8]!r}) of a fresh key on a writable handle failed with {r}"))
             cops.append(op_coq(o)); res.append(r)
